@@ -44,7 +44,11 @@ def fixed_texts(tier):
          b"a\r\nb", b"a\rb", b"\r", b"'", b"''", b"a'b", b"a'b''c'", b"'a", b"a'b\nc", b"a\nb'c", b'"', b'a"b', b"\\", b"a\\", b"\\n",
          b"a\n b\n  c\n   d", b"\n a", b" \n", b"  \n  ", b"x" * 300, b"x" * 300 + b" \n" + b"y" * 300, (b"ab cd\n" * 60),
          "\u00e9 \n\u20ac".encode(), "a\n \U0001F600".encode(), "\U00040000".encode(), "\U0004fffd".encode(), "\U00050000".encode(),
-         "\ufffd".encode(), b"a\n\tb", b"\ta", b"a\n \tb", b"a\n\t b"]
+         "\ufffd".encode(), b"a\n\tb", b"\ta", b"a\n \tb", b"a\n\t b",
+         # regression cases of the two defects repaired by f628c31 (blank before a newline; single-line layout: blank
+         # after a newline); they must round-trip now (a \n b, a\n  b, \n a,  \n above belong to them too)
+         b"a \n", b" \nb", b"a  \n\n \nb ", b"a \n\n", b"\n \n", b" \n \n ", b"a\n b\nc", b"a\n\n b", b"a\n ", b"\n \n a",
+         b"a \n b \n  c", b"a\t \nb", b"a \n\tb", b"a\\ \nb", b'a" \n b', b"a \n' b"]
     L.append(b"x" * (20000 if tier == "thorough" else 3000))
     L.append((b"line with trailing blank \n" * (400 if tier == "thorough" else 40)))
     return L
